@@ -25,6 +25,44 @@ type User struct {
 	Tags   []Tag    `gorm:"many2many:user_tags"`
 	Toys   []Toy    `gorm:"polymorphic:Owner"` // polymorphic has many
 	Badge  *Badge   `gorm:"polymorphic:Owner"` // polymorphic has one, pointer field
+	// belongs to a record whose (single, string) key is assigned by the application
+	MedalCode *string
+	Medal     *Medal `gorm:"foreignKey:MedalCode;references:Code"`
+	// belongs to a record with a two-column key (integer + string), value key columns, struct field
+	HomeSite int64
+	HomeSlug string
+	Home     Page `gorm:"foreignKey:HomeSite,HomeSlug;references:Site,Slug"`
+}
+
+// Medal: single string key chosen by the application.
+type Medal struct {
+	Code string `gorm:"primaryKey"`
+	Name string
+}
+
+// Page: two-column key (integer + string) whose parts may hold their zero value (site 0,
+// slug ""); owner of a has-many through a two-column foreign key and of a many-to-many
+// whose targets have such a key as well; target of User.Home.
+type Page struct {
+	Site   int64  `gorm:"primaryKey;autoIncrement:false"`
+	Slug   string `gorm:"primaryKey"`
+	Name   string
+	Notes  []Note  `gorm:"foreignKey:PageSite,PageSlug;references:Site,Slug"`
+	Labels []Label `gorm:"many2many:page_labels"`
+}
+
+type Note struct {
+	ID       int64 `gorm:"primaryKey"`
+	Name     string
+	PageSite *int64
+	PageSlug *string
+}
+
+// Label: two-column key (integer + string), the default locale is the empty string.
+type Label struct {
+	ID     int64  `gorm:"primaryKey;autoIncrement:false"`
+	Locale string `gorm:"primaryKey"`
+	Name   string
 }
 
 // Team is a second polymorphic owner type with the same key values as users (decoy).
@@ -97,17 +135,31 @@ type Part struct {
 	Name string
 }
 
-var allModels = []interface{}{&User{}, &Team{}, &Boss{}, &Co{}, &Item{}, &SItem{}, &Pet{}, &Tag{}, &Toy{}, &Badge{}, &Org{}, &Part{}}
+var allModels = []interface{}{&User{}, &Team{}, &Boss{}, &Co{}, &Item{}, &SItem{}, &Pet{}, &Tag{}, &Toy{}, &Badge{}, &Org{}, &Part{}, &Medal{}, &Page{}, &Note{}, &Label{}}
 
 // ---- relation specifications -------------------------------------------------
 
 const (
-	fkTarget = iota // key column on the target row (has one, has many, polymorphic)
-	fkOwner         // key column on the owner row (belongs to)
+	fkTarget = iota // key column(s) on the target row (has one, has many, polymorphic)
+	fkOwner         // key column(s) on the owner row (belongs to)
 	joinRows        // join table (many to many)
 )
 
-const ksep = "|" // separator of composite key parts in model keys (never part of a generated key)
+const ksep = "|" // separator of key parts in model keys (never part of a generated key part)
+
+// kf is one part of a key: struct field, column, and whether it is an integer (else a string).
+type kf struct {
+	field string
+	col   string
+	isInt bool
+}
+
+// poolSet: the keys a case draws from. o == nil: owners are users 1..4; t == nil: targets get
+// integer keys from the database (1..n seeded), otherwise the application assigns the keys.
+type poolSet struct {
+	name string
+	o, t []string
+}
 
 type relSpec struct {
 	name      string // relation kind
@@ -116,55 +168,128 @@ type relSpec struct {
 	single    bool // at most one link per owner
 	poly      bool
 	soft      bool
-	composite bool
+	composite bool // string keys whose naive "_" joins collide (signature class composite-key-collision)
+	assigned  bool // target keys are chosen by the application (a new record comes with its key)
 	ownerT    reflect.Type
 	targetT   reflect.Type
 	ownerTab  string
 	targetTab string
-	fkCol     string // belongs-to: key column on the owner row
-	fkField   string
+	okeys     []kf     // owner key (default: ID)
+	tkeys     []kf     // target key (default: ID)
+	fks       []kf     // fkTarget: key columns on the target (-> okeys); fkOwner: on the owner (-> tkeys)
+	jt        string   // join table, with the columns naming the owner / the target
+	jtO, jtT  []string
+	pools     []poolSet
 	tables    []string // tables emptied per case
 	linkSQL   string   // -> (target key, owner key "table:key")
 	recSQL    string   // -> (target key, name, soft-deleted 0/1)
 }
 
+var idKey = []kf{{"ID", "id", true}}
+
+// keyExpr renders a key as text, parts joined by ksep (NULL parts are shown as <null>).
+func keyExpr(cols ...string) string {
+	ps := make([]string, len(cols))
+	for i, c := range cols {
+		ps[i] = "COALESCE(CAST(" + c + " AS TEXT),'<null>')"
+	}
+	return strings.Join(ps, " || '"+ksep+"' || ")
+}
+
+var (
+	// two-column keys (integer, string); every key has a non-zero part, many have a zero part,
+	// and keys share parts with each other
+	pagePool  = []string{"0" + ksep + "index", "1" + ksep + "", "1" + ksep + "index", "2" + ksep + "", "0" + ksep + "home", "1" + ksep + "home", "2" + ksep + "index", "3" + ksep + "x"}
+	labelPool = []string{"1" + ksep + "", "1" + ksep + "en", "2" + ksep + "", "0" + ksep + "en", "2" + ksep + "en", "0" + ksep + "de", "3" + ksep + "de", "1" + ksep + "de", "3" + ksep + ""}
+	medalPool = []string{"gold", "silver", "bronze", "tin", "g old", "Gold", "iron", "0"}
+)
+
 var specs = []*relSpec{
 	{name: "has_many", field: "Items", store: fkTarget, ownerT: reflect.TypeOf(User{}), targetT: reflect.TypeOf(Item{}), ownerTab: "users", targetTab: "items",
+		fks:     []kf{{"UserID", "user_id", true}},
 		tables:  []string{"users", "items"},
 		linkSQL: "SELECT CAST(id AS TEXT), 'users:' || user_id FROM items WHERE user_id IS NOT NULL",
 		recSQL:  "SELECT CAST(id AS TEXT), name, 0 FROM items"},
 	{name: "has_many_soft", field: "SItems", store: fkTarget, soft: true, ownerT: reflect.TypeOf(User{}), targetT: reflect.TypeOf(SItem{}), ownerTab: "users", targetTab: "s_items",
+		fks:     []kf{{"UserID", "user_id", true}},
 		tables:  []string{"users", "s_items"},
 		linkSQL: "SELECT CAST(id AS TEXT), 'users:' || user_id FROM s_items WHERE user_id IS NOT NULL AND deleted_at IS NULL",
 		recSQL:  "SELECT CAST(id AS TEXT), name, deleted_at IS NOT NULL FROM s_items"},
 	{name: "has_one", field: "Pet", store: fkTarget, single: true, ownerT: reflect.TypeOf(User{}), targetT: reflect.TypeOf(Pet{}), ownerTab: "users", targetTab: "pets",
+		fks:     []kf{{"UserID", "user_id", true}},
 		tables:  []string{"users", "pets"},
 		linkSQL: "SELECT CAST(id AS TEXT), 'users:' || user_id FROM pets WHERE user_id IS NOT NULL",
 		recSQL:  "SELECT CAST(id AS TEXT), name, 0 FROM pets"},
-	{name: "belongs_to_valkey", field: "Co", store: fkOwner, single: true, ownerT: reflect.TypeOf(User{}), targetT: reflect.TypeOf(Co{}), ownerTab: "users", targetTab: "cos", fkCol: "co_id", fkField: "CoID",
+	{name: "belongs_to_valkey", field: "Co", store: fkOwner, single: true, ownerT: reflect.TypeOf(User{}), targetT: reflect.TypeOf(Co{}), ownerTab: "users", targetTab: "cos",
+		fks:     []kf{{"CoID", "co_id", true}},
 		tables:  []string{"users", "cos"},
 		linkSQL: "SELECT CAST(co_id AS TEXT), 'users:' || id FROM users WHERE co_id IS NOT NULL",
 		recSQL:  "SELECT CAST(id AS TEXT), name, 0 FROM cos"},
-	{name: "belongs_to", field: "Boss", store: fkOwner, single: true, ownerT: reflect.TypeOf(User{}), targetT: reflect.TypeOf(Boss{}), ownerTab: "users", targetTab: "bosses", fkCol: "boss_id", fkField: "BossID",
+	{name: "belongs_to", field: "Boss", store: fkOwner, single: true, ownerT: reflect.TypeOf(User{}), targetT: reflect.TypeOf(Boss{}), ownerTab: "users", targetTab: "bosses",
+		fks:     []kf{{"BossID", "boss_id", true}},
 		tables:  []string{"users", "bosses"},
 		linkSQL: "SELECT CAST(boss_id AS TEXT), 'users:' || id FROM users WHERE boss_id IS NOT NULL",
 		recSQL:  "SELECT CAST(id AS TEXT), name, 0 FROM bosses"},
 	{name: "many2many", field: "Tags", store: joinRows, ownerT: reflect.TypeOf(User{}), targetT: reflect.TypeOf(Tag{}), ownerTab: "users", targetTab: "tags",
+		jt: "user_tags", jtO: []string{"user_id"}, jtT: []string{"tag_id"},
 		tables:  []string{"users", "tags", "user_tags"},
 		linkSQL: "SELECT CAST(tag_id AS TEXT), 'users:' || user_id FROM user_tags",
 		recSQL:  "SELECT CAST(id AS TEXT), name, 0 FROM tags"},
 	{name: "poly_has_many", field: "Toys", store: fkTarget, poly: true, ownerT: reflect.TypeOf(User{}), targetT: reflect.TypeOf(Toy{}), ownerTab: "users", targetTab: "toys",
+		fks:     []kf{{"OwnerID", "owner_id", true}},
 		tables:  []string{"users", "teams", "toys"},
 		linkSQL: "SELECT CAST(id AS TEXT), COALESCE(owner_type,'') || ':' || owner_id FROM toys WHERE owner_id IS NOT NULL",
 		recSQL:  "SELECT CAST(id AS TEXT), name, 0 FROM toys"},
 	{name: "poly_has_one", field: "Badge", store: fkTarget, single: true, poly: true, ownerT: reflect.TypeOf(User{}), targetT: reflect.TypeOf(Badge{}), ownerTab: "users", targetTab: "badges",
+		fks:     []kf{{"OwnerID", "owner_id", true}},
 		tables:  []string{"users", "teams", "badges"},
 		linkSQL: "SELECT CAST(id AS TEXT), COALESCE(owner_type,'') || ':' || owner_id FROM badges WHERE owner_id IS NOT NULL",
 		recSQL:  "SELECT CAST(id AS TEXT), name, 0 FROM badges"},
-	{name: "many2many_composite", field: "Parts", store: joinRows, composite: true, ownerT: reflect.TypeOf(Org{}), targetT: reflect.TypeOf(Part{}), ownerTab: "orgs", targetTab: "parts",
+	{name: "many2many_composite", field: "Parts", store: joinRows, composite: true, assigned: true, ownerT: reflect.TypeOf(Org{}), targetT: reflect.TypeOf(Part{}), ownerTab: "orgs", targetTab: "parts",
+		okeys: []kf{{"K1", "k1", false}, {"K2", "k2", false}}, tkeys: []kf{{"P1", "p1", false}, {"P2", "p2", false}},
+		jt: "org_parts", jtO: []string{"org_k1", "org_k2"}, jtT: []string{"part_p1", "part_p2"},
+		pools:   []poolSet{{"colliding", ownerPoolC, targetPoolC}, {"collision_free", ownerPoolFree, targetPoolFree}},
 		tables:  []string{"orgs", "parts", "org_parts"},
 		linkSQL: "SELECT part_p1 || '" + ksep + "' || part_p2, 'orgs:' || org_k1 || '" + ksep + "' || org_k2 FROM org_parts",
 		recSQL:  "SELECT p1 || '" + ksep + "' || p2, name, 0 FROM parts"},
+	// ---- key shapes: keys chosen by the application, multi-column keys with zero-valued parts ----
+	{name: "belongs_to_strkey", field: "Medal", store: fkOwner, single: true, assigned: true, ownerT: reflect.TypeOf(User{}), targetT: reflect.TypeOf(Medal{}), ownerTab: "users", targetTab: "medals",
+		tkeys: []kf{{"Code", "code", false}}, fks: []kf{{"MedalCode", "medal_code", false}},
+		pools:   []poolSet{{"strings", nil, medalPool}},
+		tables:  []string{"users", "medals"},
+		linkSQL: "SELECT " + keyExpr("medal_code") + ", 'users:' || id FROM users WHERE medal_code IS NOT NULL",
+		recSQL:  "SELECT " + keyExpr("code") + ", name, 0 FROM medals"},
+	{name: "belongs_to_2colkey", field: "Home", store: fkOwner, single: true, assigned: true, ownerT: reflect.TypeOf(User{}), targetT: reflect.TypeOf(Page{}), ownerTab: "users", targetTab: "pages",
+		tkeys: []kf{{"Site", "site", true}, {"Slug", "slug", false}}, fks: []kf{{"HomeSite", "home_site", true}, {"HomeSlug", "home_slug", false}},
+		pools:  []poolSet{{"zero_parts", nil, pagePool}},
+		tables: []string{"users", "pages"},
+		// value key columns: (NULL | 0, NULL | "") is "no link"
+		linkSQL: "SELECT " + keyExpr("home_site", "home_slug") + ", 'users:' || id FROM users WHERE NOT (COALESCE(home_site,0) = 0 AND COALESCE(home_slug,'') = '')",
+		recSQL:  "SELECT " + keyExpr("site", "slug") + ", name, 0 FROM pages"},
+	{name: "has_many_2colfk", field: "Notes", store: fkTarget, ownerT: reflect.TypeOf(Page{}), targetT: reflect.TypeOf(Note{}), ownerTab: "pages", targetTab: "notes",
+		okeys: []kf{{"Site", "site", true}, {"Slug", "slug", false}}, fks: []kf{{"PageSite", "page_site", true}, {"PageSlug", "page_slug", false}},
+		pools:   []poolSet{{"zero_parts", pagePool, nil}},
+		tables:  []string{"pages", "notes"},
+		linkSQL: "SELECT CAST(id AS TEXT), 'pages:' || " + keyExpr("page_site", "page_slug") + " FROM notes WHERE page_site IS NOT NULL OR page_slug IS NOT NULL",
+		recSQL:  "SELECT CAST(id AS TEXT), name, 0 FROM notes"},
+	{name: "many2many_2colkeys", field: "Labels", store: joinRows, assigned: true, ownerT: reflect.TypeOf(Page{}), targetT: reflect.TypeOf(Label{}), ownerTab: "pages", targetTab: "labels",
+		okeys: []kf{{"Site", "site", true}, {"Slug", "slug", false}}, tkeys: []kf{{"ID", "id", true}, {"Locale", "locale", false}},
+		jt: "page_labels", jtO: []string{"page_site", "page_slug"}, jtT: []string{"label_id", "label_locale"},
+		pools:   []poolSet{{"zero_parts", pagePool, labelPool}},
+		tables:  []string{"pages", "labels", "page_labels"},
+		linkSQL: "SELECT " + keyExpr("label_id", "label_locale") + ", 'pages:' || " + keyExpr("page_site", "page_slug") + " FROM page_labels",
+		recSQL:  "SELECT " + keyExpr("id", "locale") + ", name, 0 FROM labels"},
+}
+
+func init() {
+	for _, s := range specs {
+		if s.okeys == nil {
+			s.okeys = idKey
+		}
+		if s.tkeys == nil {
+			s.tkeys = idKey
+		}
+	}
 }
 
 // deletesRecords: an Unscoped association call deletes the targets whose link it removes
@@ -190,47 +315,152 @@ func atoi(s string) int64 {
 	return n
 }
 
+// ---- keys ------------------------------------------------------------------------
+
+func keyParts(kfs []kf, key string) []string {
+	p := strings.Split(key, ksep)
+	if len(p) != len(kfs) {
+		panic(fmt.Sprintf("key %q does not have %d parts", key, len(kfs)))
+	}
+	return p
+}
+
+// keyArgs: the parts of a key as SQL arguments.
+func keyArgs(kfs []kf, key string) []interface{} {
+	p := keyParts(kfs, key)
+	out := make([]interface{}, len(p))
+	for i, f := range kfs {
+		if f.isInt {
+			out[i] = atoi(p[i])
+		} else {
+			out[i] = p[i]
+		}
+	}
+	return out
+}
+
+func kcols(kfs []kf) []string {
+	out := make([]string, len(kfs))
+	for i, f := range kfs {
+		out[i] = f.col
+	}
+	return out
+}
+
+func qmarks(n int) string { return strings.TrimSuffix(strings.Repeat("?,", n), ",") }
+
+func eqAll(cols []string) string {
+	ps := make([]string, len(cols))
+	for i, c := range cols {
+		ps[i] = c + " = ?"
+	}
+	return strings.Join(ps, " AND ")
+}
+
+func setAll(cols []string) string {
+	ps := make([]string, len(cols))
+	for i, c := range cols {
+		ps[i] = c + " = ?"
+	}
+	return strings.Join(ps, ", ")
+}
+
+// setPart stores one key part in a struct field (integer or string, value or pointer).
+func setPart(f reflect.Value, part string, isInt bool) {
+	if f.Kind() == reflect.Ptr {
+		p := reflect.New(f.Type().Elem())
+		setPart(p.Elem(), part, isInt)
+		f.Set(p)
+		return
+	}
+	if isInt {
+		f.SetInt(atoi(part))
+	} else {
+		f.SetString(part)
+	}
+}
+
+// setKey stores a key in the given fields of a struct value.
+func setKey(v reflect.Value, kfs []kf, key string) {
+	for i, p := range keyParts(kfs, key) {
+		setPart(v.FieldByName(kfs[i].field), p, kfs[i].isInt)
+	}
+}
+
+// keyOfFields reads a key from struct fields ("" when every part holds its zero value / nil).
+func keyOfFields(v reflect.Value, kfs []kf) string {
+	parts := make([]string, len(kfs))
+	allZero := true
+	for i, f := range kfs {
+		fv := v.FieldByName(f.field)
+		if fv.Kind() == reflect.Ptr {
+			if fv.IsNil() {
+				parts[i] = "<nil>"
+				continue
+			}
+			fv = fv.Elem()
+			allZero = false
+		}
+		if f.isInt {
+			parts[i] = strconv.FormatInt(fv.Int(), 10)
+		} else {
+			parts[i] = fv.String()
+		}
+		if !fv.IsZero() {
+			allZero = false
+		}
+	}
+	if allZero {
+		return ""
+	}
+	return strings.Join(parts, ksep)
+}
+
+// keyLit renders "Field:value, ..." for a composite literal.
+func keyLit(v reflect.Type, kfs []kf, key string) string {
+	ps := keyParts(kfs, key)
+	out := make([]string, len(kfs))
+	for i, f := range kfs {
+		val := ps[i]
+		typ := "int64"
+		if !f.isInt {
+			val = strconv.Quote(ps[i])
+			typ = "string"
+		}
+		if sf, ok := v.FieldByName(f.field); ok && sf.Type.Kind() == reflect.Ptr {
+			val = "&[]" + typ + "{" + val + "}[0]"
+		}
+		out[i] = f.field + ":" + val
+	}
+	return strings.Join(out, ", ")
+}
+
 // ---- raw-SQL seeding -----------------------------------------------------------
 
 func (s *relSpec) insOwner(ok, name string) {
 	table, key := splitOwner(ok)
-	if s.composite {
-		p := strings.Split(key, ksep)
-		_, err := H.SQL.Exec("INSERT INTO orgs(k1,k2,name) VALUES (?,?,?)", p[0], p[1], name)
-		must(err)
-		return
-	}
-	_, err := H.SQL.Exec("INSERT INTO "+table+"(id,name) VALUES (?,?)", atoi(key), name)
+	_, err := H.SQL.Exec("INSERT INTO "+table+"("+strings.Join(kcols(s.okeys), ",")+",name) VALUES ("+qmarks(len(s.okeys)+1)+")", append(keyArgs(s.okeys, key), name)...)
 	must(err)
 }
 
 func (s *relSpec) insTarget(tk, name string) {
-	if s.composite {
-		p := strings.Split(tk, ksep)
-		_, err := H.SQL.Exec("INSERT INTO parts(p1,p2,name) VALUES (?,?,?)", p[0], p[1], name)
-		must(err)
-		return
-	}
-	_, err := H.SQL.Exec("INSERT INTO "+s.targetTab+"(id,name) VALUES (?,?)", atoi(tk), name)
+	_, err := H.SQL.Exec("INSERT INTO "+s.targetTab+"("+strings.Join(kcols(s.tkeys), ",")+",name) VALUES ("+qmarks(len(s.tkeys)+1)+")", append(keyArgs(s.tkeys, tk), name)...)
 	must(err)
 }
 
 func (s *relSpec) insLink(ok, tk string) {
 	table, key := splitOwner(ok)
+	oa, ta := keyArgs(s.okeys, key), keyArgs(s.tkeys, tk)
 	var err error
 	switch {
-	case s.composite:
-		o := strings.Split(key, ksep)
-		t := strings.Split(tk, ksep)
-		_, err = H.SQL.Exec("INSERT INTO org_parts(org_k1,org_k2,part_p1,part_p2) VALUES (?,?,?,?)", o[0], o[1], t[0], t[1])
 	case s.store == joinRows:
-		_, err = H.SQL.Exec("INSERT INTO user_tags(user_id,tag_id) VALUES (?,?)", atoi(key), atoi(tk))
+		_, err = H.SQL.Exec("INSERT INTO "+s.jt+"("+strings.Join(append(append([]string(nil), s.jtO...), s.jtT...), ",")+") VALUES ("+qmarks(len(oa)+len(ta))+")", append(oa, ta...)...)
 	case s.store == fkOwner:
-		_, err = H.SQL.Exec("UPDATE users SET "+s.fkCol+" = ? WHERE id = ?", atoi(tk), atoi(key))
+		_, err = H.SQL.Exec("UPDATE "+table+" SET "+setAll(kcols(s.fks))+" WHERE "+eqAll(kcols(s.okeys)), append(ta, oa...)...)
 	case s.poly:
-		_, err = H.SQL.Exec("UPDATE "+s.targetTab+" SET owner_id = ?, owner_type = ? WHERE id = ?", atoi(key), table, atoi(tk))
+		_, err = H.SQL.Exec("UPDATE "+s.targetTab+" SET "+setAll(kcols(s.fks))+", owner_type = ? WHERE "+eqAll(kcols(s.tkeys)), append(append(oa, table), ta...)...)
 	default:
-		_, err = H.SQL.Exec("UPDATE "+s.targetTab+" SET user_id = ? WHERE id = ?", atoi(key), atoi(tk))
+		_, err = H.SQL.Exec("UPDATE "+s.targetTab+" SET "+setAll(kcols(s.fks))+" WHERE "+eqAll(kcols(s.tkeys)), append(oa, ta...)...)
 	}
 	must(err)
 }
@@ -279,9 +509,9 @@ func (s *relSpec) readRecs() map[string]dbRec {
 	return out
 }
 
-// idByName finds the key a brand-new record received (names of new records are unique).
+// idsByName finds the key a brand-new record received (names of new records are unique).
 func (s *relSpec) idsByName(name string) []string {
-	rows, err := H.SQL.Query("SELECT CAST(id AS TEXT) FROM "+s.targetTab+" WHERE name = ?", name)
+	rows, err := H.SQL.Query("SELECT "+keyExpr(kcols(s.tkeys)...)+" FROM "+s.targetTab+" WHERE name = ?", name)
 	must(err)
 	defer rows.Close()
 	var out []string
@@ -293,11 +523,38 @@ func (s *relSpec) idsByName(name string) []string {
 	return out
 }
 
-func (s *relSpec) ownerFK(ok string) *int64 {
-	_, key := splitOwner(ok)
-	var v *int64
-	must(H.SQL.QueryRow("SELECT "+s.fkCol+" FROM users WHERE id = ?", atoi(key)).Scan(&v))
-	return v
+// ownerFK reads the key column(s) of a belongs-to owner row: the key of the target it names,
+// "" when the row names none (every column NULL or zero).
+func (s *relSpec) ownerFK(ok string) string {
+	table, key := splitOwner(ok)
+	cols := kcols(s.fks)
+	sel := make([]string, len(cols))
+	for i, c := range cols {
+		sel[i] = "CAST(" + c + " AS TEXT)"
+	}
+	vals := make([]*string, len(cols))
+	ptrs := make([]interface{}, len(cols))
+	for i := range vals {
+		ptrs[i] = &vals[i]
+	}
+	must(H.SQL.QueryRow("SELECT "+strings.Join(sel, ",")+" FROM "+table+" WHERE "+eqAll(kcols(s.okeys)), keyArgs(s.okeys, key)...).Scan(ptrs...))
+	parts := make([]string, len(cols))
+	allNull, allZero := true, true
+	for i, v := range vals {
+		if v != nil {
+			allNull = false
+			parts[i] = *v
+		} else if s.fks[i].isInt {
+			parts[i] = "0"
+		}
+		if !(parts[i] == "" || (s.fks[i].isInt && parts[i] == "0")) {
+			allZero = false
+		}
+	}
+	if allNull || (len(cols) > 1 && allZero) {
+		return ""
+	}
+	return strings.Join(parts, ksep)
 }
 
 // ---- reflection helpers ------------------------------------------------------------
@@ -305,12 +562,8 @@ func (s *relSpec) ownerFK(ok string) *int64 {
 // newTarget builds an addressable target value.
 func (s *relSpec) newTarget(t targ) reflect.Value {
 	v := reflect.New(s.targetT).Elem()
-	if s.composite {
-		p := strings.Split(t.key, ksep)
-		v.FieldByName("P1").SetString(p[0])
-		v.FieldByName("P2").SetString(p[1])
-	} else if t.key != "" {
-		v.FieldByName("ID").SetInt(atoi(t.key))
+	if t.key != "" {
+		setKey(v, s.tkeys, t.key)
 	}
 	if !t.keyOnly {
 		v.FieldByName("Name").SetString(t.name)
@@ -320,11 +573,8 @@ func (s *relSpec) newTarget(t targ) reflect.Value {
 
 func (s *relSpec) targetLit(t targ, withType bool) string {
 	var parts []string
-	if s.composite {
-		p := strings.Split(t.key, ksep)
-		parts = append(parts, fmt.Sprintf("P1:%q, P2:%q", p[0], p[1]))
-	} else if t.key != "" {
-		parts = append(parts, "ID:"+t.key)
+	if t.key != "" {
+		parts = append(parts, keyLit(s.targetT, s.tkeys, t.key))
 	}
 	if !t.keyOnly {
 		parts = append(parts, fmt.Sprintf("Name:%q", t.name))
@@ -337,20 +587,7 @@ func (s *relSpec) targetLit(t targ, withType bool) string {
 }
 
 // pkOf returns the model key of a target value ("" = zero key).
-func (s *relSpec) pkOf(v reflect.Value) string {
-	if s.composite {
-		a, b := v.FieldByName("P1").String(), v.FieldByName("P2").String()
-		if a == "" && b == "" {
-			return ""
-		}
-		return a + ksep + b
-	}
-	n := v.FieldByName("ID").Int()
-	if n == 0 {
-		return ""
-	}
-	return strconv.FormatInt(n, 10)
-}
+func (s *relSpec) pkOf(v reflect.Value) string { return keyOfFields(v, s.tkeys) }
 
 // memKeys returns the keys of the records held by the relation field of an owner value
 // (with multiplicity; zero-key values and nil pointers are not records).
@@ -385,34 +622,20 @@ func (s *relSpec) memKeys(owner reflect.Value) []string {
 	return out
 }
 
-// setOwner fills the scalar columns of an owner value (as a loaded record without preloads).
-func (s *relSpec) setOwner(v reflect.Value, ok, name string, boss *int64) {
+// setOwner fills the scalar columns of an owner value (as a loaded record without preloads);
+// fk (belongs to): key of the target its key column(s) name, "" = none.
+func (s *relSpec) setOwner(v reflect.Value, ok, name string, fk string) {
 	_, key := splitOwner(ok)
-	if s.composite {
-		p := strings.Split(key, ksep)
-		v.FieldByName("K1").SetString(p[0])
-		v.FieldByName("K2").SetString(p[1])
-	} else {
-		v.FieldByName("ID").SetInt(atoi(key))
-	}
+	setKey(v, s.okeys, key)
 	v.FieldByName("Name").SetString(name)
-	if s.store == fkOwner && boss != nil {
-		b := *boss
-		if f := v.FieldByName(s.fkField); f.Kind() == reflect.Ptr {
-			f.Set(reflect.ValueOf(&b))
-		} else {
-			f.SetInt(b)
-		}
+	if s.store == fkOwner && fk != "" {
+		setKey(v, s.fks, fk)
 	}
 }
 
 func (s *relSpec) ownerLit(ok string) string {
 	_, key := splitOwner(ok)
-	if s.composite {
-		p := strings.Split(key, ksep)
-		return fmt.Sprintf("Org{K1:%q, K2:%q}", p[0], p[1])
-	}
-	return "User{ID:" + key + "}"
+	return s.ownerT.Name() + "{" + keyLit(s.ownerT, s.okeys, key) + "}"
 }
 
 // setRelation loads the given records into the relation field of an owner value, with the
@@ -422,17 +645,10 @@ func (s *relSpec) setRelation(owner reflect.Value, ok string, ts []targ) {
 	mk := func(t targ) reflect.Value {
 		v := s.newTarget(t)
 		if s.store == fkTarget {
-			name := "UserID"
 			if s.poly {
-				name = "OwnerID"
 				v.FieldByName("OwnerType").SetString(table)
 			}
-			id := atoi(key)
-			if f := v.FieldByName(name); f.Kind() == reflect.Ptr {
-				f.Set(reflect.ValueOf(&id))
-			} else {
-				f.SetInt(id)
-			}
+			setKey(v, s.fks, key)
 		}
 		return v
 	}
